@@ -23,6 +23,7 @@ type Obligation struct {
 	Func      string
 	Labels    []string
 	Asserts   []*Term // path condition
+	Aid       []*Term // consequences of quantified hypotheses at the goal skolems (optional portfolio arm)
 	Goal      *Term
 	Pos       string
 	Clause    *Clause
@@ -233,12 +234,42 @@ func (x *Exec) newArrayObject(st *State, name string, elem types.Type, alen *Ter
 		}
 	}
 	st.mem[o] = os
+	x.makeNested(st, o, name, pre, zero, 0)
 	return o
+}
+
+// makeNested creates the shared backing objects for slice-typed fields of the element type.
+func (x *Exec) makeNested(st *State, o *Object, name string, pre, zero bool, depth int) {
+	if o.Elem == nil || depth > 3 {
+		return
+	}
+	for _, n := range nestedPaths(o.Elem) {
+		if o.Nested == nil {
+			o.Nested = map[string]*Object{}
+		}
+		no := x.newObject(name+n.Key+"[]", true, n.T.Elem(), pre)
+		no.Global = o.Global
+		nos := &ObjState{Leaves: map[string]*Content{}, ALen: x.tb.BVc(64, new(big.Int).Lsh(big.NewInt(1), 62))}
+		leaves, _ := leafPaths(n.T.Elem())
+		for _, l := range leaves {
+			if zero {
+				nos.Leaves[l.Key] = x.ContentConst(x.zeroLeaf(l))
+			} else {
+				nos.Leaves[l.Key] = x.ContentBase(name+n.Key+"[]"+l.Key, l.Sort)
+			}
+		}
+		st.mem[no] = nos
+		o.Nested[n.Key] = no
+		x.makeNested(st, no, name+n.Key+"[]", pre, zero, depth+1)
+	}
 }
 
 func (x *Exec) zeroLeaf(l leafInfo) *Term {
 	switch l.Sort.K {
 	case KBool:
+		if strings.HasSuffix(l.Key, "#isnil") {
+			return x.tb.True()
+		}
 		return x.tb.False()
 	case KInt:
 		return x.tb.Intc(0)
@@ -353,7 +384,7 @@ func (x *Exec) addObl(st *State, name, kind string, goal *Term, pos token.Pos, l
 	}
 	if goal.IsTrue() {
 		o.Trivial = true
-	} else if sks := x.tb.Skolems(goal); len(sks) > 0 && len(sks) <= 6 {
+	} else if sks := x.aidPoints(st, goal); len(sks) > 0 && len(sks) <= 8 {
 		// instantiation aid: consequences of quantified hypotheses at the goal's skolem constants
 		budget := 48
 		for _, a := range st.pc {
@@ -365,11 +396,33 @@ func (x *Exec) addObl(st *State, name, kind string, goal *Term, pos token.Pos, l
 			}
 			ins := x.tb.InstantiateForalls(a, sks, 2, budget)
 			budget -= len(ins)
-			o.Asserts = append(o.Asserts, ins...)
+			o.Aid = append(o.Aid, ins...)
 		}
 	}
 	x.obls = append(x.obls, o)
 	return o
+}
+
+// aidPoints: ground index terms at which quantified hypotheses are instantiated for the aided portfolio arm:
+// the goal's skolem constants and the skolem indices of CRC frame-lemma instances on the path.
+func (x *Exec) aidPoints(st *State, goal *Term) []*Term {
+	sks := x.tb.Skolems(goal)
+	seen := map[int]bool{}
+	for _, s := range sks {
+		seen[s.id] = true
+	}
+	for _, a := range st.pc {
+		if a.hasQ {
+			continue
+		}
+		for _, s := range x.tb.Skolems(a) {
+			if strings.HasPrefix(s.name, "crc.k") && !seen[s.id] {
+				seen[s.id] = true
+				sks = append(sks, s)
+			}
+		}
+	}
+	return sks
 }
 
 // safety obligation: checked then assumed.
@@ -446,6 +499,30 @@ func (x *Exec) readElem(st *State, o *Object, idx *Term, path []int, t types.Typ
 			sv.Fields = append(sv.Fields, x.readElem(st, o, idx, append(append([]int(nil), path...), i), u.Field(i).Type()))
 		}
 		return sv
+	case *types.Slice:
+		k := pathKey(path)
+		if no := o.Nested[k]; no != nil && os.Leaves[k+"#len"] != nil {
+			tb := x.tb
+			ln, cp := x.Select(os.Leaves[k+"#len"], idx), x.Select(os.Leaves[k+"#cap"], idx)
+			// well-formedness of every Go slice header, plus the modelling bound on nested slices (listed assumption)
+			if idx.hasBound {
+				// inside a quantifier: state the facts once, universally, for this version of the headers
+				mark := fmt.Sprintf("nestwf:%d:%d", os.Leaves[k+"#len"].id, os.Leaves[k+"#cap"].id)
+				if _, done := st.ghost[mark]; !done {
+					st.ghost[mark] = tb.True()
+					j := tb.BoundVar("nw", BV(64))
+					lj, cj := x.Select(os.Leaves[k+"#len"], j), x.Select(os.Leaves[k+"#cap"], j)
+					st.Assume(tb.Forall(j, tb.And(tb.BVCmp("bvsle", tb.BVi(64, 0), lj), tb.BVCmp("bvsle", lj, cj), tb.BVCmp("bvslt", cj, tb.BVi(64, 1<<(nestShift-1))))))
+				}
+			} else {
+				st.Assume(tb.BVCmp("bvsle", tb.BVi(64, 0), ln))
+				st.Assume(tb.BVCmp("bvsle", ln, cp))
+				st.Assume(tb.BVCmp("bvslt", cp, tb.BVi(64, 1<<(nestShift-1))))
+				st.Assume(tb.BVCmp("bvult", idx, tb.BVi(64, 1<<(62-nestShift))))
+			}
+			x.builtinModels[fmt.Sprintf("slices stored inside slice elements: shorter than 2^%d elements, container shorter than 2^%d; stored by copy-in (aliasing with the source array is not tracked)", nestShift-1, 62-nestShift)] = true
+			return &SliceV{Obj: no, IsNil: x.Select(os.Leaves[k+"#isnil"], idx), Off: tb.BVBin("bvshl", idx, tb.BVi(64, nestShift)), Len: ln, Cap: cp, Elem: u.Elem()}
+		}
 	case *types.Interface:
 		k := pathKey(path)
 		if ct := os.Leaves[k+"#tag"]; ct != nil {
@@ -487,6 +564,21 @@ func (x *Exec) writeElem(st *State, o *Object, idx *Term, path []int, t types.Ty
 				rec(append(append([]int(nil), path...), i), u.Field(i).Type(), sv.Fields[i])
 			}
 			return
+		}
+		if _, ok := t.Underlying().(*types.Slice); ok {
+			k := pathKey(path)
+			if sv, isS := v.(*SliceV); isS && o.Nested[k] != nil && n.Leaves[k+"#len"] != nil {
+				tb := x.tb
+				n.Leaves[k+"#len"] = x.StoreC(n.Leaves[k+"#len"], idx, sv.Len)
+				n.Leaves[k+"#cap"] = x.StoreC(n.Leaves[k+"#cap"], idx, sv.Cap)
+				n.Leaves[k+"#isnil"] = x.StoreC(n.Leaves[k+"#isnil"], idx, sv.IsNil)
+				base := tb.BVBin("bvshl", idx, tb.BVi(64, nestShift))
+				if !(sv.Obj == o.Nested[k] && sv.Off == base) && !sv.Obj.Dummy {
+					// copy-in of the cells
+					x.copyCells(st, &SliceV{Obj: o.Nested[k], Off: base, Len: sv.Len}, sv, sv.Len)
+				}
+				return
+			}
 		}
 		if _, ok := t.Underlying().(*types.Interface); ok {
 			if iv, isI := v.(*IfaceV); isI {
@@ -783,6 +875,7 @@ func (x *Exec) newArrayObjectInto(st *State, o *Object, name string) {
 		os.Leaves[l.Key] = x.ContentBase(name+l.Key, l.Sort)
 	}
 	st.mem[o] = os
+	x.makeNested(st, o, name, o.Pre, false, 0)
 }
 
 func (x *Exec) runBlock(fr *Frame, b *ssa.BasicBlock, pred *ssa.BasicBlock, st *State, k cont) {
